@@ -267,7 +267,15 @@ func (m *Metric) DeclSource() string {
 	}
 	sb.WriteString(m.Kind + " " + m.Name)
 	if len(m.Keys) > 0 {
-		sb.WriteString(" by " + strings.Join(m.Keys, ", "))
+		var ks []string
+		for _, k := range m.Keys {
+			if isIdent(k) {
+				ks = append(ks, k)
+			} else {
+				ks = append(ks, "\""+k+"\"")
+			}
+		}
+		sb.WriteString(" by " + strings.Join(ks, ", "))
 	}
 	if m.As != "" {
 		sb.WriteString(" as \"" + m.As + "\"")
@@ -310,4 +318,16 @@ func (p *Program) ConstMap() map[string]*Const {
 		m[c.Name] = c
 	}
 	return m
+}
+
+func isIdent(s string) bool {
+	if s == "" {
+		return false
+	}
+	for i, r := range s {
+		if !(r == '_' || r >= 'a' && r <= 'z' || r >= 'A' && r <= 'Z' || (i > 0 && r >= '0' && r <= '9')) {
+			return false
+		}
+	}
+	return true
 }
